@@ -67,8 +67,11 @@ def gen(cls, idx, rng, tier):
     w, h = rng.choice([(1, 1), (2, 2), (3, 3), (4, 2), (4, 4)])
     if cls == "blocks":
         w, h = rng.choice([(8, 4), (4, 8), (8, 8)])
+        if idx % 6 == 5:
+            # a whole 16x16 block (one region word two levels up)
+            w, h = 16, 16
     dead = []
-    if w * h > 2 and rng.random() < .3:
+    if w * h > 2 and rng.random() < .3 and w < 16:
         dead = [(rng.randrange(w), rng.randrange(h))]
         if dead[0] == (0, 0):
             dead = []
@@ -103,10 +106,22 @@ def gen(cls, idx, rng, tier):
             extra = rng.sample(corners, rng.randint(1, len(corners))) + \
                 rng.sample([c for c in chips if c not in block],
                            rng.randint(0, 3))
+            if w == 16:
+                block, extra = list(chips), []
             for xy in block + extra:
                 if xy in chips:
                     targets[xy] = list(cs)
                     used.setdefault(xy, set()).update(cs)
+            if rng.random() < .7:
+                # further cores of the same binary on a few chips of the
+                # full block
+                for xy in rng.sample(block, rng.randint(1, 6)):
+                    if xy in chips:
+                        more = rng.sample([c for c in range(1, 18)
+                                           if c not in cs],
+                                          rng.randint(1, 2))
+                        targets[xy] = sorted(set(targets[xy]) | set(more))
+                        used[xy].update(more)
         for xy in ([] if targets else
                    rng.sample(chips, rng.randint(1, min(len(chips), 5)))):
             free = [c for c in range(1, 18) if c not in used.get(xy, set())]
